@@ -2,7 +2,7 @@ CFG = dict(
     props_file='Props/C20.v',
     coq_targets=['Checks/C20.vo', 'Props/C20.vo'],
     level_text='Theorems C20_prefix / C20_snapshot_committed / C20_log_from_programs hold for ALL client programs (any number of threads and '
-               'operations: multi-tuple inserts, deletes, rule registrations, snapshot reads) and ALL schedules of the model\'s atomic sections '
+               'operations: multi-tuple inserts, deletes, every rule-catalog operation that publishes a snapshot - register / remove clause by index / drop / clear / replace - and snapshot reads) and ALL schedules of the model\'s atomic sections '
                '(invariant over run_sched: engine state = published snapshot = state after the whole apply log; every held snapshot and every '
                'completed read = state after a prefix of the apply log that contains the reader\'s acknowledged writes). The model is tied to the code '
                'on every run: real threads are driven through enumerated and random interleavings of the sched_point hooks, every executed schedule '
@@ -15,8 +15,10 @@ CFG = dict(
                'the quantifier is closed by the Coq theorems.',
     bin='c20', n_quick=1200, n_thorough=16000,
     corr_name='Model/ConcSnap.v vs StorageEngine insert/delete/register_rule/get_snapshot_for under the schedule controller',
-    rule='configurations = 5 hand-written (writer with two batches vs reader; insert vs delete vs reader; rule registration vs insert into the '
-         'view vs reader; two writers reading their own writes; delete batch vs reader) enumerated exhaustively at the hook points, plus random '
+    rule='configurations = 8 hand-written (writer with two batches vs reader; insert vs delete vs reader; rule registration vs insert into the '
+         'view vs reader; two writers reading their own writes; delete batch vs reader; sequential removal of middle/last/only clauses of a '
+         '3-clause rule with a read after each; clause removal + immediate own read vs another reader; replace/clear/drop) enumerated '
+         'exhaustively at the hook points, plus sequential random rule-catalog histories (multi-clause rules, out-of-range indices) and random '
          'configurations (2-3 threads x 1-3 ops over 2 relations and 8 tuple ids, optional initial facts) enumerated when <= 30 interleavings, '
          'else 30 random schedules; one case = one executed schedule; non-trivial = the schedule switches threads at least twice; distinct by '
          'configuration + schedule text',
